@@ -109,6 +109,23 @@ CHECKS = {
 
 PENDING = {}
 
+# engine-level additions (DESIGN.md §12 rounds 3-4), appended to the level text of every check that uses them
+E2_EXTRA = (" Small families are additionally run (a) after each of 12 primer calls made on the same thread (two-call histories across graphs: "
+            "thread-local and pooled state), (b) built through 7 construction routes (edges first under Create then nodes re-added, reverse().reverse() / "
+            "get_subgraph(all), new_from_nodes_and_edges, shared Arc objects, KeepLast/KeepFirst+Create+Drop specs), (c) as query -> mutate in place -> query "
+            "histories with 6 mutations on the same Graph object, and where the oracle is scale-free (d) with exact power-of-two weights around 2^-60 and 2^60.")
+E1_EXTRA = " One further stage repeats the exploration with equal edge specifications being one shared Arc<Edge> object (alphabet suffix @alias)."
+for pid in ["C04", "C05", "C06", "C08", "C10", "C11", "C12", "C13", "C18", "C20"]:
+    CHECKS[pid]["text"] += E2_EXTRA
+for pid in ["C01", "C02", "C09", "C15"]:
+    CHECKS[pid]["text"] += E1_EXTRA
+CHECKS["C13"]["text"] += " Medium inputs (6-12 nodes) include nearly equal weights 1, 1+eps, 1+2eps; large inputs have 130-2200 edges."
+CHECKS["C17"]["text"] += " Also: the input re-derived by get_subgraph / reverse().reverse() inside every hash-key environment, and medium graphs with nearly equal weights (around 1 and, scaled by 2^53, whole numbers whose sums round) free-running under several hash-key environments."
+CHECKS["C20"]["text"] += " The table is also run on reverse(), to_single_edges(), get_subgraph(all) and set_all_edge_weights(2) of every small graph, and as two-call histories (one call on graph A, then the whole table on a smaller graph B on the same thread)."
+CHECKS["C19"]["text"] += " Plus attribute injection (every start tag x 26 attribute names x 14 extreme values) and text replacement (every attribute value and text node x a menu of long / non-ASCII / multi-byte strings)."
+CHECKS["C14"]["text"] += " Cases with equal parallel edges are run a second time with those edges being one shared Arc object."
+CHECKS["C01"]["text"] += " Batch calls of length 2..1025 (2049 thorough) around powers of two with the failing element first / in the middle / last are compared with the reference model."
+
 def main():
     props = [json.loads(l) for l in open("/verif/properties.jsonl")]
     ids = [p["id"] for p in props]
